@@ -135,10 +135,17 @@ let () =
       else if line.[0] = '#' then (w := empty_world; idx := 0; print_endline line)
       else begin
         let toks = List.filter (fun s -> s <> "") (String.split_on_char ' ' line) in
-        let o = parse_op toks in
-        let ((w', ob), tr) = step !w o in
-        w := w';
-        Printf.printf "%d %s | %s\n" !idx (show_obs ob) (show_events tr);
+        (match toks with
+         | ["layer"; k; bf] ->
+             Printf.printf "%d ok n:%d | L= S=\n" !idx (int_of_nat (klayer (n_of_dec bf) (parse_key k)))
+         | ["cmp"; a; b] ->
+             Printf.printf "%d ok n:%s | L= S=\n" !idx
+               (match kcmp (parse_key a) (parse_key b) with Lt -> "-1" | Eq -> "0" | Gt -> "1")
+         | _ ->
+             let o = parse_op toks in
+             let ((w', ob), tr) = step !w o in
+             w := w';
+             Printf.printf "%d %s | %s\n" !idx (show_obs ob) (show_events tr));
         incr idx
       end
     done
